@@ -1,9 +1,10 @@
 package main
 
 import (
-	"sort"
 	"fmt"
+	"sort"
 	"strings"
+	"verif/harness/internal/mem"
 
 	"github.com/casbin/casbin/v2"
 )
@@ -400,6 +401,7 @@ func runC15(c *Ctx) {
 				cfg.Depth = depth - 1
 			}
 			var peer *casbin.Enforcer
+			var peerW *mem.Watcher
 			var lastLen int
 			// findings D18 / D12: a batch update naming an unlisted rule (or an update-filtered whose
 			// filter selects nothing) changes the store and then reports false; from then on store and
@@ -419,6 +421,22 @@ func runC15(c *Ctx) {
 				if len(hist) == 1 {
 					// a peer sharing the adapter; it reloads on every notification (synchronous bus)
 					peer, _ = casbin.NewEnforcer(rbacSpec(false, false).Build(), s.A)
+					// the peer has a watcher of the same kind; for a watcher that is not a WatcherEx, SetWatcher
+					// itself installs the callback that reloads the policy
+					peerW = &mem.Watcher{}
+					switch wk {
+					case "plain":
+						_ = peer.SetWatcher(mem.Plain{Watcher: peerW})
+					case "ex":
+						_ = peer.SetWatcher(mem.Ex{Watcher: peerW})
+					case "upd":
+						_ = peer.SetWatcher(mem.Upd{Watcher: peerW})
+					case "exupd":
+						_ = peer.SetWatcher(mem.ExUpd{Watcher: peerW})
+					}
+					if (wk == "plain" || wk == "upd") && peerW.Callback() == nil {
+						c.Direct("SetWatcher did not install the reload callback for a watcher that is not a WatcherEx: a peer with such a watcher never follows the originator", fmt.Sprintf("watcher kind %s", wk))
+					}
 					s.A.Log = s.A.Log[:0]
 					lastLen = 0
 					if len(s.W.Log) > 0 {
@@ -437,6 +455,11 @@ func runC15(c *Ctx) {
 						c.Direct("an effective management call did not trigger exactly one notification", fmt.Sprintf("%s: %s -> %d notifications", cfg.Name, histText(hist), n))
 					}
 				}
+				if effective && n == 1 && (notify || last.Kind == "save") {
+					if want := c15Expected(wk, last); want != "" && s.W.Log[len(s.W.Log)-1] != want {
+						c.Direct("the notification does not carry the kind and the arguments of the call", fmt.Sprintf("%s: %s\nannounced: %s\nexpected:  %s", cfg.Name, histText(hist), s.W.Log[len(s.W.Log)-1], want))
+					}
+				}
 				if !effective && n != 0 {
 					c.Direct("a call that reported false or an error triggered a notification", fmt.Sprintf("%s: %s -> %s, %d notifications", cfg.Name, histText(hist), obs, n))
 				}
@@ -446,7 +469,11 @@ func runC15(c *Ctx) {
 				if n > 0 && notify {
 					// the peer reloads now (as its callback would) and must agree with the originator
 					calls, log := s.A.Calls, len(s.A.Log)
-					_ = peer.LoadPolicy()
+					if cb := peerW.Callback(); cb != nil {
+						cb("") // the callback SetWatcher installed
+					} else {
+						_ = peer.LoadPolicy() // WatcherEx: the application's own callback
+					}
 					s.A.Calls, s.A.Log = calls, s.A.Log[:log]
 					pol := s.E.GetModel()["p"]["p"].Policy
 					dup := false
@@ -479,4 +506,58 @@ func runC15(c *Ctx) {
 			enumerate(c, cfg)
 		}
 	}
+}
+
+// c15Expected: what a watcher of kind wk must be told for an effective call ("" = not checked here)
+func c15Expected(wk string, o EOp) string {
+	isEx := wk == "ex" || wk == "exupd"
+	isUpd := wk == "upd" || wk == "exupd"
+	j := func(r []string) string { return strings.Join(r, ",") }
+	jr := func(rs [][]string) string {
+		parts := make([]string, len(rs))
+		for i, r := range rs {
+			parts[i] = j(r)
+		}
+		return strings.Join(parts, "|")
+	}
+	sp := o.Sec + ";" + o.PType + ";"
+	switch o.Kind {
+	case "add":
+		if isEx {
+			return "AddPolicy(" + sp + j(o.Rule) + ")"
+		}
+	case "adds":
+		if isEx {
+			return "AddPolicies(" + sp + jr(o.Rules) + ")"
+		}
+	case "rm":
+		if isEx {
+			return "RemovePolicy(" + sp + j(o.Rule) + ")"
+		}
+	case "rms":
+		if isEx {
+			return "RemovePolicies(" + sp + jr(o.Rules) + ")"
+		}
+	case "rmf":
+		if isEx {
+			return fmt.Sprintf("RemoveFilteredPolicy(%s%d;%s)", sp, o.FI, j(o.Vals))
+		}
+	case "upd":
+		if isUpd {
+			return "UpdatePolicy(" + sp + j(o.Rule) + ";" + j(o.New) + ")"
+		}
+	case "upds":
+		if isUpd {
+			return "UpdatePolicies(" + sp + jr(o.Rules) + ";" + jr(o.News) + ")"
+		}
+	case "updf":
+		return "" // the old rules are whatever the adapter reports
+	case "save":
+		if isEx {
+			return "SavePolicy"
+		}
+	default:
+		return ""
+	}
+	return "Update"
 }
